@@ -118,7 +118,7 @@ func sandboxStream(sum *Summary, model *vd.Model, n int, seed int64) {
 	self, _ := os.Executable()
 	rng := rand.New(rand.NewSource(seed))
 	kinds := []string{"valid", "valid", "valid", "valid", "valid", "valid", "valid", "valid", "valid", "valid", "missing", "directory", "malformed", "wrong-type", "unknown-action", "unknown-syscall", "unknown-operation",
-		"empty-syscalls", "oversize", "no-command", "no-seccomp-key", "bad-argument-index", "no-arguments-key", "empty-arguments", "tsync-refused"}
+		"empty-syscalls", "oversize", "no-command", "no-seccomp-key", "bad-argument-index", "no-arguments-key", "empty-arguments", "tsync-refused", "kernel-refuses"}
 	strace, _ := exec.LookPath("strace")
 	for i := 0; i < n; i++ {
 		kind := kinds[rng.Intn(len(kinds))]
@@ -206,6 +206,17 @@ func sandboxStream(sum *Summary, model *vd.Model, n int, seed int64) {
 				continue
 			}
 			cmd = exec.Command(strace, append([]string{"-f", "-qq", "-o", "/dev/null", "-e", "trace=seccomp", "-e", "inject=seccomp:retval=77", bin}, args...)...)
+		}
+		if kind == "kernel-refuses" {
+			// the kernel (or an outer filter, as in a container) declines seccomp(2) with an errno — ENOSYS on a
+			// kernel without seccomp filters; injected by strace, the file itself is valid
+			if strace == "" {
+				sum.Distribution["file:kernel-refuses(strace not available)"]++
+				continue
+			}
+			errno := []string{"ENOSYS", "ENOSYS", "EPERM", "EACCES", "EINVAL", "ENOMEM", "EFAULT", "ESRCH"}[rng.Intn(8)]
+			kind = "kernel-refuses:" + errno
+			cmd = exec.Command(strace, append([]string{"-f", "-qq", "-o", "/dev/null", "-e", "trace=seccomp", "-e", "inject=seccomp:error=" + errno, bin}, args...)...)
 		}
 		var out, errb bytes.Buffer
 		cmd.Stdout, cmd.Stderr = &out, &errb
